@@ -408,7 +408,7 @@ func ruleStackGuard(c *Ctx, r *R) {
 					}
 				}
 				reach := reachableAvoiding(nonNil, cut)
-				r.check(!reach[st.Block()] || cut[st.Block()], key+":order", site, "depth test precedes the push on every non-nil path", "the push is reachable with a non-nil current scope without passing the stack-depth comparison")
+				r.check(!reach[st.Block()], key+":order", site, "depth test precedes the push on every non-nil path", "the push is reachable with a non-nil current scope without passing the stack-depth comparison")
 				// the depth of the new scope is set from the old one before the push
 				depthSet := false
 				for _, bb := range fn.Blocks {
@@ -443,10 +443,13 @@ func reachableAvoiding(from *ssa.BasicBlock, cut map[*ssa.BasicBlock]bool) map[*
 	seen := map[*ssa.BasicBlock]bool{}
 	var dfs func(b *ssa.BasicBlock)
 	dfs = func(b *ssa.BasicBlock) {
-		if seen[b] || cut[b] {
+		if seen[b] {
 			return
 		}
-		seen[b] = true
+		seen[b] = true // a cut block is reached (its instructions before the terminator execute) but not passed through
+		if cut[b] {
+			return
+		}
 		for _, s := range b.Succs {
 			dfs(s)
 		}
@@ -564,6 +567,56 @@ func isInterruptNilTest(iff *ssa.If) (nonNilSucc int, ok bool) {
 	return 0, false
 }
 
+// entryPolls: fn polls the Interrupt channel before doing anything else: either inline (entry block ends in the
+// Interrupt != nil test whose non-nil side does a non-blocking receive on Otto.Interrupt and calls the received
+// function) or by calling, first thing, a helper that has exactly that shape.
+func entryPolls(fn *ssa.Function, depth int) (bool, string) {
+	if fn == nil || len(fn.Blocks) == 0 {
+		return false, "no body"
+	}
+	b0 := fn.Blocks[0]
+	for _, ins := range b0.Instrs {
+		switch x := ins.(type) {
+		case *ssa.Call:
+			if callee := x.Call.StaticCallee(); callee != nil && depth == 0 && callee.Parent() == nil {
+				if ok, _ := entryPolls(callee, 1); ok {
+					return true, "calls the poll helper " + ssaFuncName(callee) + " first"
+				}
+			}
+			return false, "work (a call) happens before the Interrupt channel is polled"
+		case *ssa.TypeAssert:
+			return false, "the node is dispatched before the Interrupt channel is polled"
+		case *ssa.If:
+			nn, ok := isInterruptNilTest(x)
+			if !ok {
+				return false, "the first branch is not the nil test of otto.Interrupt (the poll is conditional on something else, or reads another field)"
+			}
+			var sel *ssa.Select
+			b := b0.Succs[nn]
+			for steps := 0; steps < 4 && b != nil && sel == nil; steps++ {
+				sel = selectsOnInterrupt(b)
+				if sel == nil {
+					if len(b.Succs) == 1 {
+						b = b.Succs[0]
+					} else {
+						b = nil
+					}
+				}
+			}
+			if sel == nil {
+				return false, "with a non-nil Interrupt channel no non-blocking receive on otto.Interrupt follows"
+			}
+			if !pollCallsReceived(fn, sel) {
+				return false, "the function received from the Interrupt channel is not called"
+			}
+			return true, "Interrupt != nil => non-blocking receive => call of the received function"
+		case *ssa.Return, *ssa.Jump, *ssa.Panic:
+			return false, "no poll"
+		}
+	}
+	return false, "no poll"
+}
+
 func rulePollEntry(c *Ctx, r *R) {
 	entries := evaluatorEntries(c)
 	if len(entries) != 2 {
@@ -573,48 +626,8 @@ func rulePollEntry(c *Ctx, r *R) {
 		if fn == nil || len(fn.Blocks) == 0 {
 			continue
 		}
-		key := "entry:" + ssaFuncName(fn)
-		site := c.Pos(fn.Pos())
-		b0 := fn.Blocks[0]
-		iff, ok := b0.Instrs[len(b0.Instrs)-1].(*ssa.If)
-		if !ok {
-			r.bad(key, site, "entry block does not end in the Interrupt != nil test: the interrupt channel is not polled before dispatch")
-			continue
-		}
-		nn, ok := isInterruptNilTest(iff)
-		if !ok {
-			r.bad(key, site, "entry block's branch is not a nil test of otto.Interrupt: nodes are dispatched without polling for an interrupt")
-			continue
-		}
-		// nothing before the test may use the node parameter or call anything
-		clean := true
-		for _, ins := range b0.Instrs {
-			if _, isCall := ins.(*ssa.Call); isCall {
-				clean = false
-			}
-			if _, isTA := ins.(*ssa.TypeAssert); isTA {
-				clean = false
-			}
-		}
-		// the non-nil side: follow straight-line successors until a select on Interrupt
-		var sel *ssa.Select
-		b := b0.Succs[nn]
-		for steps := 0; steps < 4 && b != nil && sel == nil; steps++ {
-			sel = selectsOnInterrupt(b)
-			if sel == nil {
-				if len(b.Succs) == 1 {
-					b = b.Succs[0]
-				} else {
-					b = nil
-				}
-			}
-		}
-		if sel == nil {
-			r.bad(key, site, "with a non-nil Interrupt channel the entry function does not perform a non-blocking receive on it")
-			continue
-		}
-		r.check(clean && pollCallsReceived(fn, sel), key, site, "Interrupt != nil => non-blocking receive => call of the received function, before dispatch",
-			"the function received from the Interrupt channel is not called (or work happens before the poll)")
+		ok, why := entryPolls(fn, 0)
+		r.check(ok, "entry:"+ssaFuncName(fn), c.Pos(fn.Pos()), why+", before dispatch", "evaluator entry does not poll for an interrupt before dispatching the node: "+why)
 	}
 }
 
@@ -669,8 +682,15 @@ func rulePollLoops(c *Ctx, r *R) {
 		cut := map[*ssa.BasicBlock]bool{}
 		for _, b := range fn.Blocks {
 			for _, ins := range b.Instrs {
-				if call, ok := ins.(*ssa.Call); ok && entries[call.Call.StaticCallee()] {
-					cut[b] = true
+				if call, ok := ins.(*ssa.Call); ok {
+					callee := call.Call.StaticCallee()
+					if entries[callee] {
+						cut[b] = true
+					} else if callee != nil && callee.Parent() == nil && callee.Pkg == fn.Pkg {
+						if ok, _ := entryPolls(callee, 1); ok {
+							cut[b] = true
+						}
+					}
 				}
 			}
 			if sel := selectsOnInterrupt(b); sel != nil && pollCallsReceived(fn, sel) {
